@@ -311,6 +311,12 @@ MiscCases ==
       Prog(<<SExpr(Bi("split", <<S(<<c_a, SP, c_b>>), V("a")>>)), SPrint(<<Call("f", <<V("a")>>)>>), SPrint(<<Bi("alength", <<V("a")>>), InA(N(1), "a")>>)>>, <<>>, <<>>,
            <<Func("f", <<AParam("A"), Param("r")>>, <<SExpr(Asg(V("r"), Cc(InA(N(1), "A"), InA(N(5), "A")))), SDel("A", N(1)),
                                                      SRet(Cc(V("r"), Cc(InA(N(1), "A"), Bi("alength", <<V("A")>>))))>>)>>), <<>>, <<>> >>,
+    \* an action whose statements compile to nothing is still an action (not the default { print })
+    <<"action-of-empty-blocks",
+      Prog(<<>>, <<Rule(NoE, <<SBlock(<<>>)>>), Rule(Re0(ReB), <<SBlock(<<SBlock(<<>>)>>), SBlock(<<>>)>>), Rule(NoE, <<SPrint(<<S(<<c_r>>), V("NR")>>)>>)>>,
+           <<SBlock(<<>>)>>, <<>>),
+      << Prog(<<>>, <<Rule(NoE, <<>>), Rule(Re0(ReB), <<>>), Rule(NoE, <<SPrint(<<S(<<c_r>>), V("NR")>>)>>)>>, <<>>, <<>>) >>,
+      << <<c_a, c_b>>, <<c_c>> >> >>,
     <<"bare-exit-in-begin", Prog(<<T1(<<c_b>>), SExit(NoE), T1(<<c_x>>)>>, <<Rule(NoE, <<T1(<<c_r>>)>>)>>, <<T1(<<c_e>>)>>, <<>>), <<>>, << <<c_x>> >> >>,
     <<"exit-status-then-bare-exit-in-end", Prog(<<>>, <<Rule(NoE, <<SExit(N(4))>>)>>, <<T1(<<c_e>>), SExit(NoE), T1(<<c_x>>)>>, <<>>), <<>>, << <<c_x>>, <<c_y>> >> >>,
     <<"exit-in-function", Prog(<<SExpr(Call("f", <<>>)), T1(<<c_x>>)>>, <<>>, <<T1(<<c_e>>)>>, <<Func("f", <<>>, <<T1(<<c_g>>), SExit(N(2)), T1(<<c_y>>)>>)>>), <<>>, <<>> >>,
@@ -355,8 +361,48 @@ FracCases ==
                     FracProg(LAMBDA pos : Grp(FN(txt)), fmt, whichfmt) >>]
    : txt \in FracTexts, fmt \in Fmts, whichfmt \in {"CONVFMT", "OFMT"}}
 
+\* ------------------------------------------------------------ F-builtins2
+\* The remaining builtin functions: tolower / toupper, match() with RSTART and RLENGTH, the mathematical functions
+\* (predicted at the points where their value is an integer, compared across spellings elsewhere), rand / srand
+\* (compared across spellings only).  Each program is also spelled with the arguments held in variables, in a user
+\* function, and in statement position, so that every way the compiler emits the call is exercised.
+B2Subject == <<C_A, c_b, c_b, C_C, D1, c_z, c_b>>
+B2Prog(arg(_), wrap(_)) ==
+  <<SExpr(Asg(Fld(N(0)), S(<<c_x, SP, C_A, c_b, C_C, SP, D4, D9>>))),
+    SPrint(<<wrap(Bi("tolower", <<arg(S(B2Subject))>>)), wrap(Bi("toupper", <<arg(S(B2Subject))>>)), Bi("toupper", <<Fld(N(2))>>), Bi("tolower", <<Fld(N(3))>>),
+             Bi("toupper", <<arg(N(12))>>), Bi("tolower", <<arg(S(<<>>))>>), Bi("toupper", <<V("u")>>)>>),
+    SPrint(<<wrap(MatchFn(arg(S(B2Subject)), Plus(Lit(c_b)))), V("RSTART"), V("RLENGTH"), Bi("substr", <<S(B2Subject), V("RSTART"), V("RLENGTH")>>)>>),
+    SPrint(<<MatchFn(Fld(N(0)), ReAB), V("RSTART"), V("RLENGTH")>>),
+    SPrint(<<wrap(MatchFn(arg(S(B2Subject)), Lit(c_q))), V("RSTART"), V("RLENGTH")>>),
+    SExpr(MatchFn(arg(S(B2Subject)), Lit(c_z))), SPrint(<<V("RSTART"), V("RLENGTH")>>),
+    SIf(MatchFn(Fld(N(2)), Lit(C_C)), <<SPrint(<<S(<<c_y>>), V("RSTART")>>)>>, <<SPrint(<<S(<<c_n>>)>>)>>),
+    SPrint(<<Bi("sqrt", <<arg(N(16))>>), Bi("exp", <<arg(N(0))>>), Bi("log", <<arg(N(1))>>), Bi("sin", <<arg(N(0))>>), Bi("cos", <<arg(N(0))>>),
+             Bi("atan2", <<arg(N(0)), arg(N(5))>>), Bi("int", <<Bi("sqrt", <<Fld(N(3))>>)>>), wrap(Bi("sqrt", <<Bin("+", arg(N(40)), N(9))>>))>>)>>
+B2Float(arg(_)) ==
+  <<SPrint(<<Bi("sqrt", <<arg(N(2))>>), Bi("exp", <<arg(N(1))>>), Bi("log", <<arg(N(10))>>), Bi("sin", <<arg(N(1))>>), Bi("cos", <<arg(N(1))>>),
+             Bi("atan2", <<arg(N(1)), arg(N(2))>>), Bi("atan2", <<arg(N(2)), arg(N(1))>>), Bi("atan2", <<arg(N(0)), Un("-", arg(N(1)))>>),
+             Bi("exp", <<arg(S(<<D2, c_x>>))>>), Bi("log", <<Bi("exp", <<arg(N(2))>>)>>), Bi("int", <<Bi("exp", <<arg(N(3))>>)>>)>>)>>
+B2Rand(arg(_)) ==
+  <<SPrint(<<Bi("srand", <<arg(N(3))>>), Bi("srand", <<arg(N(9))>>)>>), SExpr(Asg(V("r1"), Bi("rand", <<>>))), SExpr(Asg(V("r2"), Bi("rand", <<>>))),
+    SPrint(<<Bi("srand", <<arg(N(9))>>)>>), SPrint(<<Bin("==", V("r1"), Bi("rand", <<>>)), Bin("==", V("r2"), Bi("rand", <<>>)), Bin("<", V("r1"), N(1)), Bin(">=", V("r2"), N(0)),
+    Bin("==", V("r1"), V("r2"))>>), SPrint(<<V("r1"), V("r2"), Bi("int", <<Bin("*", V("r1"), N(1000))>>)>>)>>
+Direct(e) == e
+ViaVar(e) == Grp(Asg(V("t"), e))          \* the argument goes through an assignment expression
+ViaFunc(e) == Call("id", <<e>>)           \* ... or through a user function
+Builtins2Cases ==
+  { [fam |-> "builtins2", mech |-> "builtin/case-match-math", input |-> <<>>,
+     prog |-> Prog(B2Prog(Direct, Direct), <<>>, <<>>, <<IdFunc>>),
+     variants |-> << Prog(B2Prog(ViaVar, Direct), <<>>, <<>>, <<IdFunc>>), Prog(B2Prog(ViaFunc, Direct), <<>>, <<>>, <<IdFunc>>),
+                     Prog(B2Prog(Direct, ViaFunc), <<>>, <<>>, <<IdFunc>>), Prog(B2Prog(ViaVar, ViaVar), <<>>, <<>>, <<IdFunc>>) >>],
+    [fam |-> "builtins2", mech |-> "builtin/math-non-integer", input |-> <<>>, equiv |-> TRUE,
+     prog |-> Prog(B2Float(Direct), <<>>, <<>>, <<IdFunc>>),
+     variants |-> << Prog(B2Float(ViaVar), <<>>, <<>>, <<IdFunc>>), Prog(B2Float(ViaFunc), <<>>, <<>>, <<IdFunc>>) >>],
+    [fam |-> "builtins2", mech |-> "builtin/rand-srand", input |-> <<>>, equiv |-> TRUE,
+     prog |-> Prog(B2Rand(Direct), <<>>, <<>>, <<IdFunc>>),
+     variants |-> << Prog(B2Rand(ViaVar), <<>>, <<>>, <<IdFunc>>), Prog(B2Rand(ViaFunc), <<>>, <<>>, <<IdFunc>>) >>] }
+
 Cases(fm) ==
-  CASE fm = "assign" -> AssignCases [] fm = "cond" -> CondCases [] fm = "loop" -> LoopCases
+  CASE fm = "builtins2" -> Builtins2Cases [] fm = "assign" -> AssignCases [] fm = "cond" -> CondCases [] fm = "loop" -> LoopCases
     [] fm = "concat" -> ConcatCases [] fm = "call" -> CallCases [] fm = "const" -> ConstCases
     [] fm = "pattern" -> PatternCases [] fm = "flow" -> FlowCases [] fm = "misc" -> MiscCases [] fm = "fracconst" -> FracCases
 
